@@ -20,14 +20,22 @@ import (
 //
 // The answers are joined by " | ". A panicking operation answers "PANIC" and
 // ends the history. Otherwise the last field is the aliasing monitor: every
-// expression handed to or returned by the memory is printed when it is first
-// seen and printed again at the end of the history; "alias:ok" if all the
+// expression handed to or returned by the memory, and every interval map
+// returned by Missing and Blocks, is printed when it is first seen and printed again at the end of the history; "alias:ok" if all the
 // prints are unchanged, "alias:changed <k>" (k = index of the first changed
 // value) otherwise.
 
 type aliasRecord struct {
 	ex    expr.Expr
+	ivs   *interval.Map[model.Addr] // a returned interval map instead of an expression
 	print string
+}
+
+func (r aliasRecord) current() string {
+	if r.ivs != nil {
+		return fmtSparseIntervals(*r.ivs)
+	}
+	return fmtExpr(r.ex)
 }
 
 func fmtSparseIntervals(m interval.Map[model.Addr]) string {
@@ -73,9 +81,13 @@ func sparseOp(m *memory.Sparse, t *tokens, seen *[]aliasRecord) (res string) {
 	case "ms":
 		addr := model.Addr(t.uint())
 		w := t.width()
-		return fmtSparseIntervals(m.Missing(addr, w))
+		ivs := m.Missing(addr, w)
+		*seen = append(*seen, aliasRecord{ivs: &ivs, print: fmtSparseIntervals(ivs)})
+		return fmtSparseIntervals(ivs)
 	case "bl":
-		return fmtSparseIntervals(m.Blocks())
+		ivs := m.Blocks()
+		*seen = append(*seen, aliasRecord{ivs: &ivs, print: fmtSparseIntervals(ivs)})
+		return fmtSparseIntervals(ivs)
 	default:
 		panic(parseError("bad sparse op " + op))
 	}
@@ -98,7 +110,7 @@ func init() {
 
 		alias := "alias:ok"
 		for k, r := range seen {
-			if fmtExpr(r.ex) != r.print {
+			if r.current() != r.print {
 				alias = fmt.Sprintf("alias:changed %d", k)
 				break
 			}
